@@ -26,13 +26,36 @@ INSERTS = [
 ]
 
 
-def patched_main(src):
+def _event(text):
+    import re
+    m = re.search(r'verifTrace\((?:fmt\.Sprintf\()?"([a-z\-]+)', text)
+    return m.group(1) if m else None
+
+
+def package_events(priv=None):
+    """names of the trace events already called somewhere in /repo's cmd/ow-sim package (any file, any argument
+    names): a refactoring that moves the calls to another file or renames the variables they pass keeps them"""
+    import glob
+    ev = set()
+    d = os.path.join(REPO, 'cmd', 'ow-sim')
+    for f in glob.glob(os.path.join(d, '*.go')):
+        if os.path.basename(f).startswith('verif_trace_'):
+            continue
+        src = open((priv or {}).get(f, f)).read()
+        for l in src.split('\n'):
+            e = _event(l)
+            if e:
+                ev.add(e)
+    return ev
+
+
+def patched_main(src, present=()):
     """Insert the one-line hook calls into main.go's text; returns (text, missing anchors)."""
     lines = src.split('\n')
     missing = []
     for anchor, where, text in INSERTS:
-        if any(l.strip() == text.strip() for l in lines):
-            continue                      # this call is already in /repo's main.go
+        if any(l.strip() == text.strip() for l in lines) or _event(text) in present:
+            continue                      # this call is already in /repo's cmd/ow-sim package
         idx = [i for i, l in enumerate(lines) if anchor in l and 'verifTrace' not in l]
         # 'writingDone <- g' must not match 'writingDone <- genFinished'
         if anchor == 'writingDone <- g':
@@ -77,7 +100,7 @@ def build_owsim(race=False, plain=False):
     note = 'hooks from /repo'
     main_path = os.path.join(REPO, 'cmd', 'ow-sim', 'main.go')
     src = open(priv.get(main_path, main_path)).read()
-    text, missing = patched_main(src)
+    text, missing = patched_main(src, package_events(priv) if hooks_in_repo() else ())
     ov = dict(priv)
     if text != src:
         pm = os.path.join(OUT, 'C07', 'main_patched%s%s.go' % ('-race' if race else '', '-plain' if plain else ''))
